@@ -381,7 +381,8 @@ def k2_task(task, tr):
           TreeLikelihoodModel.calculate_with_tip_states)
     tr.bounds['K2'] = ('n in {3,4}; {unrooted, time tree + strict clock, time tree + per-branch clock} x '
                        '{constant, constant+mu, invariant, Weibull(2), Weibull(2)+invariant} x {tip partials, tip states}; '
-                       '4-column alignment with IUPAC codes, a gap and a repeated column')
+                       '4-column alignment with IUPAC codes, a gap and a repeated column; n = 4: Weibull models on the unrooted tree only, tip '
+                       'states with one-category site models only (K >= 2 categories with tip states undecided within budget at n = 4)')
     tr.stubs.add('substitution_model.p_t replaced by an uninterpreted matrix function P_ij(t) (real p_t is C04)')
     S = 4
     with tracing() as t:
@@ -621,6 +622,10 @@ def tasks_for(tier):
                     for site_kind in ('constant', 'constant+mu', 'invariant', 'weibull', 'weibull+inv'):
                         for tipst in (False, True):
                             if n == 4 and site_kind in ('weibull', 'weibull+inv') and tree_kind != 'unrooted':
+                                continue
+                            # n = 4 with tip states (a missing tip is a column of ones summed through every rate category):
+                            # undecided within budget for K >= 2 categories - one-category site models only
+                            if n == 4 and tipst and (site_kind not in ('constant', 'constant+mu') or tree_kind == 'simple'):
                                 continue
                             ts.append(('K2', topo, n, tree_kind, site_kind, tipst))
                             if n == 3 and not tipst:
